@@ -12,7 +12,7 @@ cp /repo/Cargo.lock $S/repo/
 mkdir -p $S/harness
 cp -r /verif/harness/src /verif/harness/Cargo.toml /verif/harness/Cargo.lock /verif/harness/.cargo $S/harness/ 2>/dev/null
 sed -i "s#path = \"/repo\"#path = \"$S/repo\"#" $S/harness/Cargo.toml
-export VERIF_HARNESS_DIR=$S/harness VERIF_SCRATCH_DIR=$S/out
+export VERIF_HARNESS_DIR=$S/harness VERIF_SCRATCH_DIR=$S/out VERIF_REPO=$S/repo
 for c in $CHECKS; do
   out=$(cd /verif && python3 check.py $c --no-lean 2>&1 | tail -2)
   if echo "$out" | grep -q "^VIOLATION property=$c"; then echo "$NAME $c DETECTED $(echo "$out" | grep -o 'no-failing-input-found')"; else echo "$NAME $c missed"; fi
